@@ -6,4 +6,4 @@ Extraction "extracted/c20_model.ml"
   combinations int_combinations osp canon_oparts valid_simplex nodup_v
   faces_ok cofaces_ok faces_cofaces_ok
   locate_z locate_q locate_point_freud in_rel_interior in_rel_interior_q locate_weights
-  cart barycenter affine_preimage_ok bary_close Qred sort_nat shift.
+  cart barycenter affine_preimage_ok bary_close near_simplex Qred sort_nat shift.
